@@ -16,6 +16,7 @@ import (
 	"bytes"
 	"fmt"
 	"strings"
+	"unicode"
 	"unicode/utf8"
 
 	"github.com/pdfcpu/pdfcpu/pkg/pdfcpu"
@@ -51,7 +52,9 @@ func calibratedUnits(r *vh.Run) []string {
 		if err == nil && string(p) == nfkc("x"+u+"y") {
 			ok = append(ok, u)
 		} else {
-			r.Count("longpw:unit-not-calibrated:" + vh.Hex([]byte(u)))
+			// every unit is a plain letter sequence: the specified preparation is NFKC, nothing else
+			r.OracleFail("aes256-prep-differs-from-nfkc", map[string]any{"password_hex": vh.Hex([]byte("x" + u + "y"))},
+				fmt.Sprintf("processInput gives %x (err %v), NFKC gives %x", p, err, nfkc("x"+u+"y")))
 		}
 	}
 	return ok
@@ -129,8 +132,7 @@ func longCands(r *vh.Run, d string) []longCand {
 
 func partLongPW(r *vh.Run) {
 	units := calibratedUnits(r)
-	if len(units) < 15 {
-		r.OracleFail("harness:longpw-calibration", map[string]any{"units": len(units)}, "processInput no longer equals NFKC on the short letter units")
+	if len(units) < 10 {
 		return
 	}
 	for _, rev := range []int{5, 6} {
@@ -234,6 +236,120 @@ func partLongPW(r *vh.Run) {
 				})
 				r.Case("aes_calc", []string{tp, R, hx([]byte(dUser)), hx([]byte(nfkc(dUser))), hx([]byte(dOwner)), hx([]byte(nfkc(dOwner))), hx(ru), hx(ro), hx(wfk)},
 					hx(e.U)+"|"+hx(e.O)+"|"+hx(e.UE)+"|"+hx(e.OE))
+			}
+		}
+	}
+}
+
+// ---------------------------------------------------------------- letter case and other near misses, R5/R6
+
+func swapCaseRune(r rune) rune {
+	if unicode.IsUpper(r) {
+		return unicode.ToLower(r)
+	}
+	if unicode.IsLower(r) {
+		return unicode.ToUpper(r)
+	}
+	return r
+}
+
+type caseVariant struct{ kind, pw string }
+
+func caseVariants(s string) []caseVariant {
+	var vs []caseVariant
+	add := func(kind, v string) {
+		if v != s {
+			vs = append(vs, caseVariant{kind, v})
+		}
+	}
+	vs = append(vs, caseVariant{"same", s})
+	add("case-swapped-all", strings.Map(swapCaseRune, s))
+	add("case-lower", strings.ToLower(s))
+	add("case-upper", strings.ToUpper(s))
+	rs := []rune(s)
+	for i, c := range rs {
+		if swapCaseRune(c) != c {
+			t := append([]rune{}, rs...)
+			t[i] = swapCaseRune(c)
+			add("case-swapped-one", string(t))
+			break
+		}
+	}
+	add("case-special", strings.NewReplacer("ß", "ss", "ẞ", "ß", "ı", "i", "İ", "i", "I", "ı", "ς", "σ").Replace(s))
+	for i, c := range rs {
+		if c < 0x80 && unicode.IsLetter(c) {
+			t := append([]rune{}, rs...)
+			t[i] = c - 'A' + 0xFF21
+			add("nfkc-equal-fullwidth", string(t))
+			break
+		}
+	}
+	add("char-added", s+"x")
+	add("homoglyph", strings.NewReplacer("a", "а", "e", "е", "o", "о", "p", "р", "A", "А", "K", "К", "Α", "A").Replace(s))
+	return vs
+}
+
+// partCase: the preparation must not identify letters that differ in case (or anything else NFKC keeps apart).
+// Judged with NFKC computed directly; K: password bytes and decisions of the code model with that preparation.
+func partCase(r *vh.Run) {
+	pairs := [][2]string{{"OpenSesame42", "UserPw7"}, {"Straße", "ẞig"}, {"ΑλφαΩμέγα", "Привет"}, {"ＡBCdef", "İstanbulı"}, {"Kelvin", "McIntosh"}, {"opensesame42", "straße"}, {"αλφαωμέγα", "привет"}}
+	for _, rev := range []int{5, 6} {
+		R := vh.Int(int64(rev))
+		for _, pr := range pairs {
+			dOwner, dUser := pr[0], pr[1]
+			pU, pO := wantBytes(dUser), wantBytes(dOwner)
+			fk := randBytes(r, 32)
+			U, UE := iAlg8(rev, pU, randBytes(r, 8), randBytes(r, 8), fk)
+			O, OE := iAlg9(rev, pO, randBytes(r, 8), randBytes(r, 8), U, fk)
+			for _, owner := range []bool{false, true} {
+				d, p := dUser, pU
+				if owner {
+					d, p = dOwner, pO
+				}
+				for _, c := range caseVariants(d) {
+					want := bytes.Equal(wantBytes(c.pw), p)
+					ctx := &model.Context{Configuration: model.NewDefaultConfiguration(), XRefTable: &model.XRefTable{}}
+					ctx.E = &model.Enc{O: O, U: U, OE: OE, UE: UE, L: 256, P: -1, R: rev, V: 5, Emd: true, ID: docID}
+					var ok bool
+					err := guard(func() (e error) {
+						if owner {
+							ctx.OwnerPW = c.pw
+							ok, e = pdfcpu.VerifC24ValidateOwnerPassword(ctx)
+						} else {
+							ctx.UserPW = c.pw
+							ok, e = pdfcpu.VerifC24ValidateUserPassword(ctx)
+						}
+						return
+					})
+					accepted := err == nil && ok
+					in := map[string]any{"R": rev, "slot": map[bool]string{false: "user", true: "owner"}[owner], "candidate_kind": c.kind,
+						"document_password": hx([]byte(d)), "candidate": hx([]byte(c.pw)), "expected_password_bytes": hx(wantBytes(c.pw))}
+					switch {
+					case want && !accepted:
+						r.OracleFail("aes256-prepared-password-rejects-right", in, fmt.Sprintf("pdfcpu ok=%v err=%v", ok, err))
+					case !want && accepted:
+						r.OracleFail("aes256-prepared-password-accepts-wrong", in, "Algorithm 11/12 on NFKC(candidate) rejects; pdfcpu accepts")
+					default:
+						r.OracleOK()
+					}
+					r.Count("case:" + c.kind + ":" + vh.Bool(want))
+					// K: password bytes, and (R5) the decision of the code model with the independent preparation
+					real, perr := pdfcpu.VerifC24ProcessInput(c.pw)
+					res := "!"
+					if perr == nil {
+						res = hx(trunc127(real))
+					}
+					r.Case("aes_prepared", []string{hx([]byte(c.pw)), hx([]byte(nfkc(c.pw)))}, res)
+					if rev == 5 {
+						if owner {
+							tp := withTape(func() { iAlg12(rev, wantBytes(c.pw), O, OE, U) })
+							r.Case("aes_vowner", []string{tp, R, hx([]byte(c.pw)), hx([]byte(nfkc(c.pw))), hx(O), hx(OE), hx(U)}, okKey(ok, ctx.EncKey, err != nil))
+						} else {
+							tp := withTape(func() { iAlg11(rev, wantBytes(c.pw), U, UE) })
+							r.Case("aes_vuser", []string{tp, R, hx([]byte(c.pw)), hx([]byte(nfkc(c.pw))), hx(U), hx(UE)}, okKey(ok, ctx.EncKey, err != nil))
+						}
+					}
+				}
 			}
 		}
 	}
